@@ -13,6 +13,9 @@ import (
 	bcntypes "github.com/unification-com/mainchain/x/beacon/types"
 	enttypes "github.com/unification-com/mainchain/x/enterprise/types"
 	wrktypes "github.com/unification-com/mainchain/x/wrkchain/types"
+
+	cosmosed "github.com/cosmos/cosmos-sdk/crypto/keys/ed25519"
+	stakingtypes "github.com/cosmos/cosmos-sdk/x/staking/types"
 )
 
 var debugLogs = os.Getenv("VH_DEBUG") != ""
@@ -45,28 +48,30 @@ var focusWeights = map[string]weights{
 }
 
 type history struct {
-	focus        string
-	aimPair      *[2]int // a stream the current block is aimed at (block time placed around its zero time)
-	c            *chain
-	r            *rng
-	w            weights
-	obs          *observer
-	items        []string // Coq titem terms
-	kinds        map[string]int
-	results      map[string]int
-	nOps         int
-	nTx          int
-	nOk          int
-	pending      []pendingProposal
-	flags        map[string]int // counters of interesting things that happened (pruning, minting, ...)
-	mon          *monitors
-	halted       bool
-	lastObs      []string
-	futureSubmit int  // one in so many BEACON records carries a submit time far in the future (0 = default 6)
-	reimportNext bool // the chain was exported and re-imported just before the next operation
-	carry        [][2]string
-	shadow       *chain // the application the state was exported from, run in lockstep after a re-import
-	shadowLeft   int
+	focus            string
+	aimPair          *[2]int // a stream the current block is aimed at (block time placed around its zero time)
+	c                *chain
+	r                *rng
+	w                weights
+	obs              *observer
+	items            []string // Coq titem terms
+	kinds            map[string]int
+	results          map[string]int
+	nOps             int
+	nTx              int
+	nOk              int
+	pending          []pendingProposal
+	flags            map[string]int // counters of interesting things that happened (pruning, minting, ...)
+	mon              *monitors
+	halted           bool
+	lastObs          []string
+	futureSubmit     int  // one in so many BEACON records carries a submit time far in the future (0 = default 6)
+	twinValidator    bool // twin histories: create a validator in a block where a proposal ends
+	validatorCreated bool
+	reimportNext     bool // the chain was exported and re-imported just before the next operation
+	carry            [][2]string
+	shadow           *chain // the application the state was exported from, run in lockstep after a re-import
+	shadowLeft       int
 }
 
 type pendingProposal struct {
@@ -1115,6 +1120,11 @@ func (h *history) block() bool {
 	}
 	h.item(fmt.Sprintf("OpBegin %s", coqZ(timeNs(c.now))), 0, false, c.ctx())
 	h.mon.afterBegin()
+	if h.twinValidator && !h.validatorCreated && h.proposalEndsNow() {
+		// (twin histories only: the model does not follow staking) a validator is created in the very block in which a
+		// proposal's voting period ends: the order of the gov and staking EndBlockers decides the tally
+		h.createValidator()
+	}
 	k := r.intn(7)
 	for i := 0; i < k; i++ {
 		h.doDeliver()
@@ -1236,4 +1246,30 @@ func (h *history) run(nBlocks int) string {
 		}
 	}
 	return fmt.Sprintf("{| tr_genesis := %s;\n   tr_items := [\n    %s] |}", gen, strings.Join(h.items, ";\n    "))
+}
+
+// proposalEndsNow: some pending proposal's voting period ends at or before the current block time
+func (h *history) proposalEndsNow() bool {
+	ctx := h.c.ctx()
+	for _, p := range h.pending {
+		if pr, ok := h.c.app.GovKeeper.GetProposal(ctx, p.id); ok && pr.Status == govv1.StatusVotingPeriod && pr.VotingEndTime != nil && !pr.VotingEndTime.After(h.c.now) {
+			return true
+		}
+	}
+	return false
+}
+
+// createValidator: the last account self-delegates three times the genesis validator's stake
+func (h *history) createValidator() {
+	c := h.c
+	a := c.accts[len(c.accts)-1]
+	pk := cosmosed.GenPrivKeyFromSecret([]byte("verif-twin-validator")).PubKey()
+	msg, err := stakingtypes.NewMsgCreateValidator(sdk.ValAddress(a.addr), pk, sdk.NewInt64Coin("stake", 3_000_000),
+		stakingtypes.NewDescription("twin", "", "", "", ""), stakingtypes.NewCommissionRates(sdk.ZeroDec(), sdk.OneDec(), sdk.ZeroDec()), sdk.OneInt())
+	if err != nil {
+		return
+	}
+	res, _ := c.deliver(txSpec{msgs: []sdk.Msg{msg}, fee: sdk.Coins{}, signers: []acct{a}})
+	h.validatorCreated = true
+	h.flags[fmt.Sprintf("validator_created_with_proposal_ending:%d", res.Code)]++
 }
